@@ -137,11 +137,21 @@ func genC07(r *Rand, tier string) []Case {
 			q1.Items, q2.Items = []Item{{E: Col("id")}, {E: Col("n1")}}, []Item{{E: Col("id")}, {E: Col("n1")}}
 			q1.Group, q2.Group = nil, nil
 			body := &Stmt{From: &From{K: "table", Path: []string{"a"}}, Items: []Item{{Star: true}}, With: []CTE{{Name: "a", Q: q2}}}
-			// (reading the enclosing CTE through `<-` from a subquery would also expose a leak, but CTEs seen through
-			// `<-` are outside the model — see ASSUME — so the enclosing CTE is read by a join partner)
-			q = &Stmt{From: &From{K: "join", JT: Pick(r, []string{"inner", "left"}), Strat: "auto", L: &From{K: "table", Path: []string{"b"}, Alias: "x"},
-				R: &From{K: "table", Path: []string{"a"}, Alias: "y"}, On: Cmp(Pick(r, []string{"=", "!=", "<="}), Col("x", "id"), Col("y", "id"))},
-				Items: []Item{{E: Col("x", "id"), Alias: "bid"}, {E: Col("y", "id"), Alias: "aid"}, {E: Col("y", "n1"), Alias: "an"}}}
+			// the enclosing CTE is read afterwards: by a join partner, or through `<-` from an IN-subquery / a select-list subquery
+			switch r.Intn(3) {
+			case 0:
+				q = &Stmt{From: &From{K: "join", JT: Pick(r, []string{"inner", "left"}), Strat: "auto", L: &From{K: "table", Path: []string{"b"}, Alias: "x"},
+					R: &From{K: "table", Path: []string{"a"}, Alias: "y"}, On: Cmp(Pick(r, []string{"=", "!=", "<="}), Col("x", "id"), Col("y", "id"))},
+					Items: []Item{{E: Col("x", "id"), Alias: "bid"}, {E: Col("y", "id"), Alias: "aid"}, {E: Col("y", "n1"), Alias: "an"}}}
+			case 1:
+				q = &Stmt{From: &From{K: "table", Path: []string{"b"}}, Items: []Item{{E: Col("id")}},
+					Where: &Expr{K: "insub", Neg: r.Bool(), A: Col("id"), Q: &Stmt{From: &From{K: "table", Path: []string{"<-", "a"}}, Items: []Item{{E: Col("id")}}}}}
+				tags = append(tags, "cte-through-backref")
+			default:
+				q = &Stmt{From: &From{K: "table", Path: []string{"b"}}, Items: []Item{{E: Col("id")},
+					{E: &Expr{K: "sub", Q: &Stmt{From: &From{K: "table", Path: []string{"<-", "a"}}, Items: []Item{{E: &Expr{K: "agg", Name: "count", Star: true}, Alias: "k"}}}}, Alias: "na"}}}
+				tags = append(tags, "cte-through-backref")
+			}
 			q.With = []CTE{{Name: "a", Q: q1}, {Name: "b", Q: body}}
 		case 10: // two-level subquery: the inner one reads the OUTER row's nested array through the first subquery
 			tags = append(tags, "subquery-two-level-mixed")
@@ -225,6 +235,20 @@ func genC07(r *Rand, tier string) []Case {
 				}
 			}
 			q = &Stmt{From: &From{K: "table", Path: []string{"t"}}, Items: []Item{{E: Col("id")}, {E: &Expr{K: "sub", Q: sub}, Alias: "sub"}}}
+			if r.Chance(30) {
+				// the subquery reads a CTE of the enclosing query through the back-reference (one and two levels up)
+				tags = append(tags, "cte-through-backref")
+				inner, _, _ = innerQuery(r, t, &tags)
+				inner.Items, inner.Group = []Item{{E: Col("id")}, {E: Col("n1")}}, nil
+				rd := &Stmt{From: &From{K: "table", Path: []string{"<-", "c"}}, Items: []Item{{E: Col("id")}}, Where: Cmp(Pick(r, cmpOps), Col("n1"), Col("<-", "n1"))}
+				var e *Expr = &Expr{K: "sub", Q: rd}
+				if r.Bool() {
+					rd2 := &Stmt{From: &From{K: "table", Path: []string{"<-", "<-", "c"}}, Items: []Item{{E: &Expr{K: "agg", Name: "count", Star: true}, Alias: "k"}}}
+					e = &Expr{K: "sub", Q: &Stmt{From: &From{K: "dual"}, Items: []Item{{E: &Expr{K: "sub", Q: rd2}, Alias: "y"}}}}
+				}
+				q = &Stmt{From: &From{K: "table", Path: []string{"t"}}, Items: []Item{{E: Col("id")}, {E: e, Alias: "sub"}}, With: []CTE{{Name: "c", Q: inner}}}
+				inner = nil
+			}
 		case 7: // EXISTS over the nested array, predicate may mention outer columns
 			tags = append(tags, "exists")
 			var p *Expr
